@@ -525,12 +525,57 @@ def same(a, b, env=None):
         return False
 
 
-def split_where(e, conds=()):
-    """alternatives of an Expr with conditionals resolved: list of (conds, Expr without where)"""
-    e = lift_where(e)
-    if isinstance(e, tuple) and e and e[0] == 'where':
-        return split_where(e[2], conds + ((e[1], True),)) + split_where(e[3], conds + ((e[1], False),))
-    return [(list(conds), e)]
+def _resolve(e, cond, truth):
+    """every conditional on `cond` inside e replaced by the branch selected by `truth`"""
+    if not isinstance(e, tuple) or not e or not isinstance(e[0], str) or e[0] in ('sym', 'num', 'nan', 'x'):
+        return e
+    if e[0] == 'where' and e[1] == cond:
+        return _resolve(e[2] if truth else e[3], cond, truth)
+    out = [e[0]]
+    for c in e[1:]:
+        if isinstance(c, tuple) and c and isinstance(c[0], str):
+            out.append(_resolve(c, cond, truth))
+        elif isinstance(c, tuple):
+            out.append(tuple(_resolve(x, cond, truth) if isinstance(x, tuple) and x and isinstance(x[0], str) else
+                             (tuple(_resolve(y, cond, truth) if isinstance(y, tuple) and y and isinstance(y[0], str) else y for y in x) if isinstance(x, tuple) else x)
+                             for x in c))
+        else:
+            out.append(c)
+    return tuple(out)
+
+
+def _first_cond(e):
+    if not isinstance(e, tuple) or not e or not isinstance(e[0], str) or e[0] in ('sym', 'num', 'nan', 'x'):
+        return None
+    if e[0] == 'where':
+        return e[1]
+    for c in e[1:]:
+        if isinstance(c, tuple) and c and isinstance(c[0], str):
+            r = _first_cond(c)
+            if r is not None:
+                return r
+        elif isinstance(c, tuple):
+            for x in c:
+                if isinstance(x, tuple) and x and isinstance(x[0], str):
+                    r = _first_cond(x)
+                    if r is not None:
+                        return r
+                elif isinstance(x, tuple):
+                    for y in x:
+                        if isinstance(y, tuple) and y and isinstance(y[0], str):
+                            r = _first_cond(y)
+                            if r is not None:
+                                return r
+    return None
+
+
+def split_where(e, conds=(), depth=0):
+    """alternatives of an Expr with conditionals resolved consistently (one truth value per condition):
+    list of (conds, Expr without where)"""
+    c = _first_cond(e) if depth < 8 else None
+    if c is None:
+        return [(list(conds), e)]
+    return split_where(_resolve(e, c, True), conds + ((c, True),), depth + 1) + split_where(_resolve(e, c, False), conds + ((c, False),), depth + 1)
 
 
 def mentions(e, pred):
